@@ -1142,6 +1142,124 @@ fn run_impl(src: &str, n_ops: usize, modules: &HashMap<Vec<String>, String>, b: 
     }
 }
 
+/// Which way a history is driven through the real system.
+/// * sync: ONE program on the sync executor returning a tuple of everything;
+/// * session: the same history typed line by line into a `Repl` (persistent process 0 of a real
+///   `Environment` + `Worker`, driven by the deterministic simulator `qverif::sim`): every version
+///   and many keys are REPL variables carried across lines, every observation is the result of its
+///   own line (extracted to the environment and canonicalised there), each line is compiled against
+///   the bindings of the earlier ones.
+static SESSION: std::sync::atomic::AtomicBool = std::sync::atomic::AtomicBool::new(false);
+
+fn session_mode() -> bool {
+    SESSION.load(std::sync::atomic::Ordering::Relaxed)
+}
+
+/// The lines of the session of a history: (line, is an observation whose value is a field).
+fn session_lines(h: &History) -> Vec<(String, bool)> {
+    let mut lines: Vec<(String, bool)> = vec![("d0 = %dict.new".into(), false)];
+    let mut versions = 1usize;
+    let mut nk = 0usize;
+    // a key occurrence: written in place, or (every other occurrence with a non-literal spelling, and
+    // every third literal) bound to a variable on a line of its own first
+    let mut key = |lines: &mut Vec<(String, bool)>, k: &Key, sp: &Sp, i: usize, j: usize| -> String {
+        let e = spell_key(k, sp);
+        let bind = match sp {
+            Sp::Lit | Sp::Pretty => (i + j) % 3 == 0,
+            _ => (i + j) % 2 == 0,
+        };
+        if bind {
+            nk += 1;
+            lines.push((format!("k{nk} = {e}"), false));
+            format!("k{nk}")
+        } else {
+            e
+        }
+    };
+    for (i, op) in h.ops.iter().enumerate() {
+        match op {
+            Op::Put(v, k, x) => {
+                let ke = key(&mut lines, k, &h.sp(i, 0), i, 0);
+                lines.push((format!("d{versions} = [d{v}, {ke}, {x}] %dict.put"), false));
+                versions += 1;
+            }
+            Op::Remove(v, k) => {
+                let ke = key(&mut lines, k, &h.sp(i, 0), i, 0);
+                lines.push((format!("d{versions} = [d{v}, {ke}] %dict.remove"), false));
+                versions += 1;
+            }
+            Op::From(ps) => {
+                let mut s = String::new();
+                for (j, (k, x)) in ps.iter().enumerate() {
+                    let ke = key(&mut lines, k, &h.sp(i, j), i, j);
+                    s.push_str(&format!("Cons[[{ke}, {x}], "));
+                }
+                s.push_str("Nil");
+                for _ in ps {
+                    s.push(']');
+                }
+                lines.push((format!("d{versions} = {s} %dict.from"), false));
+                versions += 1;
+            }
+            Op::Merge(a, b) => {
+                lines.push((format!("d{versions} = [d{a}, d{b}] %dict.merge"), false));
+                versions += 1;
+            }
+            Op::Get(v, k) => {
+                let ke = key(&mut lines, k, &h.sp(i, 0), i, 0);
+                lines.push((format!("[d{v}, {ke}] %dict.get"), true));
+            }
+            Op::Has(v, k) => {
+                let ke = key(&mut lines, k, &h.sp(i, 0), i, 0);
+                lines.push((format!("[d{v}, {ke}] %dict.has?"), true));
+            }
+            Op::Count(v) => lines.push((format!("d{v} %dict.count"), true)),
+            Op::Entries(v) => lines.push((format!("d{v} %dict.entries"), true)),
+            Op::Keys(v) => lines.push((format!("d{v} %dict.keys"), true)),
+            Op::Values(v) => lines.push((format!("d{v} %dict.values"), true)),
+            Op::IterCount(v) => lines.push((format!("d{v} %dict.iter %iter.count"), true)),
+        }
+    }
+    for v in 0..versions {
+        lines.push((format!("d{v}"), true));
+    }
+    for v in 0..versions {
+        lines.push((format!("d{v} %dict.entries"), true));
+    }
+    lines
+}
+
+fn run_session(h: &History, modules: &HashMap<Vec<String>, String>, b: &Builtins) -> ImplRun {
+    use qverif::sim::{EvalOutcome, Sim, eval_in};
+    let lines = session_lines(h);
+    let r = qverif::catch(|| {
+        let mut sim = Sim::new(1, None, b.clone(), false).with_repl(modules.clone());
+        let mut fields = vec![];
+        for (n, (line, is_obs)) in lines.iter().enumerate() {
+            let out = eval_in(&mut sim, line, None, 200_000);
+            match out {
+                EvalOutcome::Value(c) => {
+                    if *is_obs {
+                        match parse_canon(&c) {
+                            Some(v) => fields.push(v),
+                            None => return Err(format!("run: line {n} `{line}`: unparsable value {c}")),
+                        }
+                    } else if c != "t(Ok;)" {
+                        return Err(format!("run: line {n} `{line}` (a binding) evaluated to {c}, not Ok"));
+                    }
+                }
+                EvalOutcome::Rejected(e) => return Err(format!("front-end: line {n} `{line}`: {e}")),
+                other => return Err(format!("run: line {n} `{line}`: {}", other.render())),
+            }
+        }
+        Ok(fields)
+    });
+    match r {
+        Ok(f) => ImplRun { fields: f },
+        Err(p) => ImplRun { fields: Err(format!("run: panic in the session: {}", p.lines().next().unwrap_or(""))) },
+    }
+}
+
 type HostMap = BTreeMap<Key, i64>;
 
 /// What the finite-map specification says each observation must be (as sets where the module
@@ -1311,8 +1429,18 @@ fn field_label(h: &History, idx: usize, n_obs: usize, versions: usize) -> String
 }
 
 fn judge(h: &History, modules: &HashMap<Vec<String>, String>, b: &Builtins, model: &mut Model) -> Verdict {
+    let mut v = judge_path(h, modules, b, model);
+    if session_mode() {
+        if let Some((sig, msg, found)) = v.failure.take() {
+            v.failure = Some((format!("path=session {sig}"), format!("[REPL session, line by line] {msg}"), found));
+        }
+    }
+    v
+}
+
+fn judge_path(h: &History, modules: &HashMap<Vec<String>, String>, b: &Builtins, model: &mut Model) -> Verdict {
     let (src, n_obs, versions) = program(h);
-    let imp = run_impl(&src, h.ops.len(), modules, b);
+    let imp = if session_mode() { run_session(h, modules, b) } else { run_impl(&src, h.ops.len(), modules, b) };
     let (expect, host_vers) = host_run(h);
     let fields = match imp.fields {
         Ok(f) => f,
@@ -1705,10 +1833,10 @@ fn main() {
             Some((s, m, f)) if s == sig => (m, f),
             _ => (msg.to_string(), found),
         };
-        let (src, _, _) = program(&small);
+        let src = if session_mode() { session_lines(&small).into_iter().map(|l| l.0).collect::<Vec<_>>().join("\n") } else { program(&small).0 };
         let broken = if found2 {
             json!(null)
-        } else if sig == "kind=wf" {
+        } else if sig.ends_with("kind=wf") {
             json!("theorems C19.put_wf / C19.remove_wf (trie invariant incl. canonical shape) do not hold of the tree built by std/dict.qv; correspondence model<->impl on the structural value")
         } else {
             json!(format!("correspondence model<->impl on std/dict.qv ({sig}); theorems C19.* are about the model"))
@@ -1716,7 +1844,7 @@ fn main() {
         ev.violation(
             sig,
             &format!("{msg2}  [history: {}]", small.ops.iter().map(|o| o.model_req()).collect::<Vec<_>>().join("; ")),
-            json!({"history": history_json(&small), "program": src, "broken": broken, "original_len": h.ops.len()}),
+            json!({"history": history_json(&small), "path": if session_mode() { "session" } else { "sync" }, "program": src, "broken": broken, "original_len": h.ops.len()}),
             found2,
         );
     };
@@ -1725,8 +1853,13 @@ fn main() {
     if let Some(p) = &opts.replay {
         let j: serde_json::Value = serde_json::from_str(&std::fs::read_to_string(p).unwrap()).unwrap();
         let h = history_from_json(&j["replay"]["history"]).or_else(|| history_from_json(&j)).expect("history in replay file");
+        if j["replay"]["path"].as_str() == Some("session") || opts.has_flag("--session") {
+            SESSION.store(true, std::sync::atomic::Ordering::Relaxed);
+            println!("{}", session_lines(&h).into_iter().map(|l| l.0).collect::<Vec<_>>().join("\n"));
+        } else {
+            println!("{}", program(&h).0);
+        }
         let v = judge(&h, &modules, &b, &mut model);
-        println!("{}", program(&h).0);
         match v.failure {
             Some((s, m, f)) => {
                 println!("FAILS signature={s} failing_input_found={f}: {m}");
@@ -1756,12 +1889,16 @@ fn main() {
             eprintln!("corpus file {} unreadable", f.display());
             continue;
         };
-        let v = judge(&h, &modules, &b, &mut model);
-        ev.case(&h, true);
-        ev.hit("corpus");
-        if let Some((sig, msg, found)) = v.failure {
-            report(&mut ev, &h, &sig, &format!("corpus {}: {msg}", f.file_name().unwrap().to_string_lossy()), found, &modules, &b, &mut model);
+        for session in [false, true] {
+            SESSION.store(session, std::sync::atomic::Ordering::Relaxed);
+            let v = judge(&h, &modules, &b, &mut model);
+            ev.case(&(&h, session), true);
+            ev.hit(if session { "corpus:session" } else { "corpus" });
+            if let Some((sig, msg, found)) = v.failure {
+                report(&mut ev, &h, &sig, &format!("corpus {}: {msg}", f.file_name().unwrap().to_string_lossy()), found, &modules, &b, &mut model);
+            }
         }
+        SESSION.store(false, std::sync::atomic::Ordering::Relaxed);
     }
 
     // 2. generated histories
@@ -1771,10 +1908,11 @@ fn main() {
         "fragment_groups_by_shared_low_bits": ks.frag.iter().enumerate().map(|(j, g)| json!({"bits": 5 * (j + 1), "groups": g.len(), "max_group": g.iter().map(|x| x.len()).max().unwrap_or(0)})).collect::<Vec<_>>(),
         "full_collision_groups": ks.full.iter().map(|g| g.len()).collect::<Vec<_>>(),
     }));
-    let n_hist = opts.tier.pick(400u64, 10_000u64);
+    let n_hist = opts.tier.pick(340u64, 10_000u64);
+    let session_every = opts.tier.pick(12u64, 6u64);
     let max_ops = opts.tier.pick(60usize, 300usize);
     let t0 = std::time::Instant::now();
-    let budget_s = opts.tier.pick(120u64, 1500u64);
+    let budget_s = opts.tier.pick(45u64, 1500u64);
     let mut max_depth = 0usize;
     let mut max_bucket = 0usize;
     for i in 0..n_hist {
@@ -1879,6 +2017,20 @@ fn main() {
         ev.sample_sparse(i, 97, || json!({"history": history_json(&h), "final_tree": v.trees.last().map(render_cv)}));
         if let Some((sig, msg, found)) = v.failure {
             report(&mut ev, &h, &sig, &msg, found, &modules, &b, &mut model);
+        }
+        // the same history once more, typed line by line into a REPL session
+        if i % session_every == 1 && h.ops.len() <= 40 {
+            SESSION.store(true, std::sync::atomic::Ordering::Relaxed);
+            let ts = std::time::Instant::now();
+            let v = judge(&h, &modules, &b, &mut model);
+            ev.case(&(&h, true), nontrivial);
+            ev.hit("path:session");
+            ev.add("session:lines", session_lines(&h).len() as u64);
+            ev.add("session:ms", ts.elapsed().as_millis() as u64);
+            if let Some((sig, msg, found)) = v.failure {
+                report(&mut ev, &h, &sig, &msg, found, &modules, &b, &mut model);
+            }
+            SESSION.store(false, std::sync::atomic::Ordering::Relaxed);
         }
     }
     ev.set_extra("max_scheduler_quanta_per_history", json!(MAX_QUANTA_SEEN.load(std::sync::atomic::Ordering::Relaxed) + 1));
